@@ -109,6 +109,13 @@ def generate(seed: int, tier: str = "quick") -> dict:
                 lo += rp.choice([sp // 2, sp // 2, rp.randint(1, sp - 1)])
                 hi += rp.choice([sp // 2, sp // 2, rp.randint(1, sp - 1), 0])
             o = {"op": "uni.add_by_tick", "a": {"lo": lo, "hi": hi, "base": {"f": f"wallet:{B}", "x": _frac(rp)}, "quote": {"f": f"wallet:{Q}", "x": _frac(rp)}, "where": where}}
+            r = rp.random()
+            if r < 0.25:
+                # the optional explicit pool price (as a tick, or as the sqrt price of a tick) instead of the bar's price:
+                # below / inside / above the range, never on a bound, never +-1 (tick=-1 is the API's 'not given')
+                et = rp.choice([lo - rp.randint(1, 3 * sp), rp.randint(lo + 1, max(lo + 1, hi - 1)), hi + rp.randint(1, 3 * sp), ct + rp.randint(-sp, sp)])
+                if et not in (lo, hi, lo // sp * sp, hi // sp * sp, (lo // sp + 1) * sp, (hi // sp + 1) * sp) and abs(et) > 1:
+                    o["a"]["tick" if r < 0.17 else "sqrt_tick"] = et
             n_created += 1
         elif kind == "add":
             lo, hi = rng_ticks()
@@ -209,6 +216,8 @@ def mirror(scenario):
             a["lo"], a["hi"] = -a["hi"], -a["lo"]
         if "tick" in a:
             a["tick"] = -a["tick"]
+        if "sqrt_tick" in a:
+            a["sqrt_tick"] = -a["sqrt_tick"]
         p = a.get("pos")
         if isinstance(p, dict) and "lo" in p:
             p["lo"], p["hi"] = -p["hi"], -p["lo"]
